@@ -143,6 +143,14 @@ static void run() {
     if (a.shard == 0)
         for (const char *s : {"foo{}bar", "1234a", "(1 (a b c) 3)", "#xdeadBEEF", "(#xFF #xff #Xff)", "((((((((a))))))))", "(a . b)", "\"str\"", "(a\x01)", "18446744073709551615", "#xffffffffffffffff", "(%|/_:;.!?$&=*<>~)"})
             run_input(s, false);
+    // every octet value as the first and as a later character of a token, alone, inside a list, behind "#x" and in front of a digit:
+    // the character classes of the reader are the fixed ASCII sets of the format, whatever <ctype.h> answers in the process's locale
+    if (a.shard == 0)
+        for (int c = 1; c < 256; c++) {
+            std::string ch(1, (char)c);
+            for (const std::string &in : {ch, "a" + ch, "(" + ch + " 1)", "#x" + ch, ch + "1", "#x1" + ch, "1" + ch, "(a" + ch + ")"}) run_input(in, false);
+            vp::cls("every-octet-in-every-token-position");
+        }
     if (a.shard == 1 % a.nshards && !vp::vg().on) giant_offsets();
 }
 static bool replay(const std::string &text) {
